@@ -41,6 +41,11 @@ var payloadSizes = []int{24, 100, 4095, 4096, 4097, 70000, 256 << 10}
 // classification of what is wrong with it.
 func ident(b []byte) (id string, problem string) {
 	if len(b) == 0 {
+		if allowEmpty {
+			// rounds in which empty contents are written on purpose: "EMPTY" is an ordinary
+			// (not unique) value of the register, and the model decides whether it may be seen
+			return "EMPTY", ""
+		}
 		return "", "empty"
 	}
 	parts := strings.SplitN(string(b[:min(len(b), 64)]), "|", 4)
@@ -64,6 +69,9 @@ func ident(b []byte) (id string, problem string) {
 		return "", fmt.Sprintf("mixed (header of %s/%s, %d bytes, body differs)", parts[0], parts[1], len(b))
 	}
 }
+
+// allowEmpty: this round writes empty contents on purpose (see ident).
+var allowEmpty bool
 
 // ---------- worker ----------
 
@@ -100,6 +108,7 @@ func worker() {
 	F, _ := strconv.Atoi(os.Getenv("C07_F"))
 	wid, _ := strconv.Atoi(os.Getenv("C07_WID"))
 	noBlindWrites := os.Getenv("C07_CHAIN") == "1"
+	allowEmpty = os.Getenv("C07_EMPTY") == "1"
 	words, err := vlib.OpenSharedWords(filepath.Join(dir, "words"), 8)
 	if err != nil {
 		fmt.Fprintln(os.Stderr, err)
@@ -140,6 +149,9 @@ func worker() {
 				mk := func() (string, []byte) {
 					s := int64(wid)*10_000_000 + atomic.AddInt64(&serial, 1)
 					tag := fmt.Sprintf("w%d", wid)
+					if allowEmpty && rng.Intn(4) == 0 {
+						return "EMPTY", nil
+					}
 					return fmt.Sprintf("%s/%d", tag, s), payload.Make(tag, s, payloadSizes[rng.Intn(len(payloadSizes))])
 				}
 				r := rng.Intn(10)
@@ -424,9 +436,13 @@ func faultRuns(r *vlib.Run, base string, W int) {
 		}
 		r.Eval(1)
 		atomic.AddInt64(&nFaultRuns, 1)
-		got, _ := os.ReadFile(file)
+		got, rerr := os.ReadFile(file)
 		fault := desc
 		switch {
+		case rerr != nil:
+			report("transform-lost-the-file", fmt.Sprintf("transform-lost-the-file old=%d new=%d %s", rl.old, rl.new, fault),
+				fmt.Sprintf("after a Transform (%s) with %s the file cannot be read any more: %v (old %d bytes, new %d bytes)", strings.TrimSpace(stdout), fault, rerr, rl.old, rl.new),
+				fcase{"transform-lost-the-file", rl.old, rl.new, fault, trace, strings.TrimSpace(stdout)})
 		case strings.HasPrefix(stdout, "TERR"):
 			atomic.AddInt64(&nRolledBack, 1)
 			if !bytes.Equal(got, old) {
@@ -501,7 +517,7 @@ func main() {
 		return
 	}
 	vlib.Main("C07", "exploration", 12*time.Minute, func(r *vlib.Run) {
-		r.Rule("schedules: rounds of P processes (2-6) x G goroutines (2-6) released together on F files; each client does K operations (Read via lockedfile.Read or Open+delayed ReadAll, Write of a unique payload, Transform to a unique payload, Transform whose function fails) with unique self-describing payloads of 24B..256KiB and seeded delays at the lockedfile hooks; each file's history (plus a final quiescent Read) is checked with porcupine against a register model; every fifth round has no blind Writes and is also checked by the chain checker. faults: for 9 (quick) / 15 old/new length relations a dry run under strace lists the file operations of one Transform, then one run per (operation, errno), plus failing function and RLIMIT_FSIZE short writes. Non-trivial/distinct = per-file histories containing overlapping operations of different kinds + confirmed fault injections.")
+		r.Rule("schedules: rounds of P processes (2-6) x G goroutines (2-6) released together on F files; each client does K operations (Read via lockedfile.Read or Open+delayed ReadAll, Write of a unique payload, Transform to a unique payload, Transform whose function fails) with unique self-describing payloads of 24B..256KiB and seeded delays at the lockedfile hooks; each file's history (plus a final quiescent Read) is checked with porcupine against a register model; every fifth round has no blind Writes and is also checked by the chain checker; every fifth round writes empty contents too and starts half of its files empty (EMPTY is then an ordinary value of the register). faults: for 9 (quick) / 15 old/new length relations a dry run under strace lists the file operations of one Transform, then one run per (operation, errno), plus failing function and RLIMIT_FSIZE short writes. Non-trivial/distinct = per-file histories containing overlapping operations of different kinds + confirmed fault injections.")
 		r.Assume("CLOCK_MONOTONIC is one clock for all processes of the machine; porcupine v1.3.0 decides linearizability of the recorded history (timeout => inconclusive)")
 		base := vlib.Scratch()
 		W := runtime.NumCPU()
@@ -538,9 +554,20 @@ func main() {
 				K = r.Pick(60, 400)
 				F = 1
 			}
+			// every fifth round (not a chain round) also writes empty contents and starts half of
+			// its files empty: a failing Transform must leave an empty file in place like any other
+			emptyRound := round%5 == 2
+			allowEmpty = emptyRound
 			init := payload.Make("init", 0, 1000)
 			for f := 0; f < F; f++ {
+				if emptyRound && f%2 == 0 {
+					os.WriteFile(filepath.Join(dir, fmt.Sprintf("f%d", f)), nil, 0o666)
+					continue
+				}
 				os.WriteFile(filepath.Join(dir, fmt.Sprintf("f%d", f)), init, 0o666)
+			}
+			if emptyRound {
+				r.Count("rounds_with_empty_contents", 1)
 			}
 			words, err := vlib.OpenSharedWords(filepath.Join(dir, "words"), 8)
 			if err != nil {
@@ -557,6 +584,9 @@ func main() {
 					fmt.Sprintf("C07_SEED=%d", r.SubSeed(fmt.Sprintf("w-%d-%d", round, p))%1_000_000),
 					fmt.Sprintf("C07_G=%d", G), fmt.Sprintf("C07_K=%d", K), fmt.Sprintf("C07_F=%d", F), fmt.Sprintf("C07_WID=%d", p+1),
 					vlib.RaceEnv(racePrefix))
+				if emptyRound {
+					cmd.Env = append(cmd.Env, "C07_EMPTY=1")
+				}
 				if chain {
 					cmd.Env = append(cmd.Env, "C07_CHAIN=1")
 				}
@@ -603,6 +633,10 @@ func main() {
 					fin.Val = id
 				}
 				evs = append(evs, fin)
+				if emptyRound && f%2 == 0 {
+					// the file started empty: a completed Write of EMPTY before everything else
+					evs = append(evs, event{Client: 9998, File: f, Op: opWrite, Arg: "EMPTY", Call: 0, Ret: 1})
+				}
 				sort.Slice(evs, func(i, j int) bool { return evs[i].Call < evs[j].Call })
 				nHist++
 				nOps += int64(len(evs))
